@@ -50,7 +50,12 @@ def run(ctx):
     for schema in V2_SCHEMAS:
         for k in range(per):
             ops, metas = gen_history(ctx.rng, schema, 25 + (k % 4) * 5)
-            cases.append(c08.wrap_case("o%d" % n, schema, ops, metas, ordered=True))
+            # one history in six runs in a library whose id counters straddle 2^31, 2^32 or lie far beyond
+            first = None
+            if k % 6 == 5:
+                first = [2 ** 31 - 4, 2 ** 32 - 4, 2 ** 31 + 10, 2 ** 53 - 4, 2 ** 62][(k // 6) % 5]
+                ctx.bump_in("histories_with_first_id", str(first))
+            cases.append(c08.wrap_case("o%d" % n, schema, ops, metas, ordered=True, first_id=first))
             n += 1
     c0 = cases[0]
     ctx.sample({"schema": c0["schema"], "ops": [o for o in c0["ops"] if o["op"] not in ("observe_all", "note", "table_observe")][:12]})
